@@ -4,6 +4,10 @@
 //!   Every history starts from a fresh `LcdController::new()`.  Ops (JSON arrays):
 //!     ["w", addr, value]   LcdController::write
 //!     ["r", addr]          LcdController::read           -> "r": null | int
+//!     ["W", addr, v0, step, n]  n x LcdController::write(addr, (v0 + i*step) & 0xFF), i = 0..n-1  (bulk verb: long
+//!                          runs such as 65536 un-polled writes are one request element, one snapshot at the end)
+//!     ["R", addr, n]       n x LcdController::read(addr) -> "r": the last result, "rs": [number of Some results,
+//!                          FNV-1a/32 over the results (None hashed as 0x100)] -- an encoding of what was returned
 //!     ["b"]                remember display_buffer() as the base; -> "b": 32 strings of 240 '0'/'1'
 //!     ["d"]                diff display_buffer() against the base -> "d": [row, col, value, ...]
 //!     ["v"]                export_snapshot() VRAM payload -> "x": hex string
@@ -12,8 +16,12 @@
 //!   With "snap": true every "w"/"r" result additionally carries the export_snapshot() view:
 //!     "s": [on, start_line, page, y_address] x 2 chips, "v": [index, value, ...] = bytes of the VRAM
 //!     payload that differ from the payload after the previous op (all-zero before the first op).
+//!   "via": "hal" drives the same ops through `create_lcd(LcdKind::Hd61202)` and the `LcdHal` trait object (the
+//!   way the runtime owns its LCD) instead of the inherent methods of a `LcdController` value.
 //!   The harness holds no LCD semantics: diffs are an encoding of what the crate returned.
-use sc62015_core::lcd::{LcdController, LCD_DISPLAY_COLS, LCD_DISPLAY_ROWS};
+use sc62015_core::lcd::{
+    create_lcd, LcdController, LcdDisplayWrite, LcdHal, LcdKind, LCD_DISPLAY_COLS, LCD_DISPLAY_ROWS,
+};
 use serde_json::{json, Value};
 
 #[derive(Default)]
@@ -21,7 +29,59 @@ pub struct State {}
 
 type Buf = [[u8; LCD_DISPLAY_COLS]; LCD_DISPLAY_ROWS];
 
-fn snap(lcd: &LcdController, prev: &mut Vec<u8>) -> (Value, Value) {
+/// The two public ways of owning the controller: a `LcdController` value or a `Box<dyn LcdHal>`.
+trait Dev {
+    fn write(&mut self, address: u32, value: u8);
+    fn read(&mut self, address: u32) -> Option<u8>;
+    fn export_snapshot(&self) -> (Value, Vec<u8>);
+    fn display_buffer(&self) -> Buf;
+    fn begin_display_write_capture(&mut self);
+    fn take_display_write_capture(&mut self) -> Vec<LcdDisplayWrite>;
+}
+
+impl Dev for LcdController {
+    fn write(&mut self, address: u32, value: u8) {
+        LcdController::write(self, address, value)
+    }
+    fn read(&mut self, address: u32) -> Option<u8> {
+        LcdController::read(self, address)
+    }
+    fn export_snapshot(&self) -> (Value, Vec<u8>) {
+        LcdController::export_snapshot(self)
+    }
+    fn display_buffer(&self) -> Buf {
+        LcdController::display_buffer(self)
+    }
+    fn begin_display_write_capture(&mut self) {
+        LcdController::begin_display_write_capture(self)
+    }
+    fn take_display_write_capture(&mut self) -> Vec<LcdDisplayWrite> {
+        LcdController::take_display_write_capture(self)
+    }
+}
+
+impl Dev for Box<dyn LcdHal> {
+    fn write(&mut self, address: u32, value: u8) {
+        self.as_mut().write(address, value)
+    }
+    fn read(&mut self, address: u32) -> Option<u8> {
+        self.as_mut().read(address)
+    }
+    fn export_snapshot(&self) -> (Value, Vec<u8>) {
+        self.as_ref().export_snapshot()
+    }
+    fn display_buffer(&self) -> Buf {
+        self.as_ref().display_buffer()
+    }
+    fn begin_display_write_capture(&mut self) {
+        self.as_mut().begin_display_write_capture()
+    }
+    fn take_display_write_capture(&mut self) -> Vec<LcdDisplayWrite> {
+        self.as_mut().take_display_write_capture()
+    }
+}
+
+fn snap<D: Dev>(lcd: &D, prev: &mut Vec<u8>) -> (Value, Value) {
     let (meta, payload) = lcd.export_snapshot();
     let mut regs: Vec<Value> = Vec::with_capacity(8);
     if let Some(chips) = meta.get("chips").and_then(|v| v.as_array()) {
@@ -54,7 +114,16 @@ fn snap(lcd: &LcdController, prev: &mut Vec<u8>) -> (Value, Value) {
 }
 
 fn run_history(h: &Value, out: &mut Vec<Value>) {
-    let mut lcd = LcdController::new();
+    if h.get("via").and_then(|v| v.as_str()) == Some("hal") {
+        let mut lcd: Box<dyn LcdHal> = create_lcd(LcdKind::Hd61202);
+        run_ops(&mut lcd, h, out)
+    } else {
+        let mut lcd = LcdController::new();
+        run_ops(&mut lcd, h, out)
+    }
+}
+
+fn run_ops<D: Dev>(lcd: &mut D, h: &Value, out: &mut Vec<Value>) {
     let want_snap = h.get("snap").and_then(|v| v.as_bool()).unwrap_or(false);
     let mut prev: Vec<u8> = vec![0u8; 2 * 8 * 64];
     let mut base: Option<Buf> = None;
@@ -68,7 +137,7 @@ fn run_history(h: &Value, out: &mut Vec<Value>) {
                 let val = op.get(2).and_then(|v| v.as_u64()).unwrap_or(0) as u8;
                 lcd.write(addr, val);
                 if want_snap {
-                    let (s, v) = snap(&lcd, &mut prev);
+                    let (s, v) = snap(&*lcd, &mut prev);
                     out.push(json!({"s": s, "v": v}));
                 } else {
                     out.push(json!({}));
@@ -78,10 +147,50 @@ fn run_history(h: &Value, out: &mut Vec<Value>) {
                 let addr = op.get(1).and_then(|v| v.as_u64()).unwrap_or(0) as u32;
                 let r = lcd.read(addr);
                 if want_snap {
-                    let (s, v) = snap(&lcd, &mut prev);
+                    let (s, v) = snap(&*lcd, &mut prev);
                     out.push(json!({"r": r, "s": s, "v": v}));
                 } else {
                     out.push(json!({"r": r}));
+                }
+            }
+            "W" => {
+                let addr = op.get(1).and_then(|v| v.as_u64()).unwrap_or(0) as u32;
+                let v0 = op.get(2).and_then(|v| v.as_u64()).unwrap_or(0);
+                let step = op.get(3).and_then(|v| v.as_u64()).unwrap_or(0);
+                let n = op.get(4).and_then(|v| v.as_u64()).unwrap_or(0);
+                for i in 0..n {
+                    lcd.write(addr, (v0.wrapping_add(i.wrapping_mul(step)) & 0xFF) as u8);
+                }
+                if want_snap {
+                    let (s, v) = snap(&*lcd, &mut prev);
+                    out.push(json!({"s": s, "v": v}));
+                } else {
+                    out.push(json!({}));
+                }
+            }
+            "R" => {
+                let addr = op.get(1).and_then(|v| v.as_u64()).unwrap_or(0) as u32;
+                let n = op.get(2).and_then(|v| v.as_u64()).unwrap_or(0);
+                let mut last: Option<u8> = None;
+                let mut some: u64 = 0;
+                let mut fnv: u32 = 0x811C_9DC5;
+                for _ in 0..n {
+                    last = lcd.read(addr);
+                    let code: u32 = match last {
+                        Some(b) => {
+                            some += 1;
+                            b as u32
+                        }
+                        None => 0x100,
+                    };
+                    fnv = (fnv ^ (code & 0xFF)).wrapping_mul(0x0100_0193);
+                    fnv = (fnv ^ (code >> 8)).wrapping_mul(0x0100_0193);
+                }
+                if want_snap {
+                    let (s, v) = snap(&*lcd, &mut prev);
+                    out.push(json!({"r": last, "rs": [some, fnv], "s": s, "v": v}));
+                } else {
+                    out.push(json!({"r": last, "rs": [some, fnv]}));
                 }
             }
             "b" => {
